@@ -34,6 +34,8 @@ def cases(ctx):
     yield {"kind": "g4", "what": "chars2", "maxlen": ctx.pick(8, 9)}
     for fcfg in ipref.file_configs(rng, ctx.per_shard(ctx.pick(240, 60000)), quick=ctx.quick):
         yield {"kind": "labelled", "fcfg": fcfg, "lseed": rng.getrandbits(32), "nlines": 40}
+    for fcfg in ipref.file_configs(rng, ctx.per_shard(ctx.pick(16, 800)), quick=ctx.quick):
+        yield {"kind": "labelled", "fcfg": fcfg, "lseed": rng.getrandbits(32), "nlines": 3, "straddle": rng.choice([8192, 8192, 16384, 4096])}
 
 
 def gen_lines(rng, fcfg, n):
@@ -86,6 +88,19 @@ def _labelled(ctx, case):
     fcfg = case["fcfg"]
     rng = random.Random(case["lseed"])
     lns = case.get("lines") or gen_lines(rng, fcfg, case["nlines"])
+    if case.get("straddle") and not case.get("lines"):
+        # very long lines: an address token straddles a multiple of 8192 characters
+        out = []
+        for segs in lns:
+            idx = [i for i, (_, l) in enumerate(segs) if l["t"] in ("v4", "v6")]
+            if not idx:
+                continue
+            i = rng.choice(idx)
+            p = sum(len(t) for t, _ in segs[:i])
+            r = rng.randint(0, len(segs[i][0]))
+            n = max(0, case["straddle"] - r - p)
+            out.append([["zq " * (n // 3) + " " * (n % 3), {"t": "d"}]] + list(segs))
+        lns = out
     ref = ipref.Ref(fcfg)
     fa = ipref.file_anonymizer(fcfg)
     for segs in lns:
